@@ -1,7 +1,7 @@
 """X01 - specification coverage BEYOND the listed properties (not registered in MANIFEST.json; `./check X01`).
 The specifications keep growing to cover more of numqi's behaviour; parts that belong to none of C01..C20 are decided here, so
 that a defect in them can never be reported against a listed property.
-specs: specs/extra/{MC_Qudit,MC_SymplecticGS,MC_PauliOrbit,MC_SymBasis}.tla"""
+specs: specs/extra/{MC_Qudit,MC_SymplecticGS,MC_PauliOrbit,MC_SymBasis,MC_SchurWeyl}.tla"""
 import itertools, math, random
 import numpy as np
 from .. import tlc, core
@@ -199,10 +199,60 @@ def run_symbasis(ctx, quick):
             ctx.violation('X01:tensor2d_project_to_sym_antisym_basis:exception', type(ex).__name__ + ': ' + str(ex)[:160], data)
 
 
+def run_schurweyl(ctx, quick):
+    """get_sud_symmetric_irrep_basis / get_symmetric_extension_irrep_coeff against the Schur-Weyl table of MC_SchurWeyl (diagrams with at
+    most d rows in the library's order, f_lambda copies of dimension dim W_lambda), then what makes the blocks usable in the extension
+    SDPs: orthonormal and complete, every copy invariant under U^{(x)k} with the SAME representation matrix, partial trace of the
+    coefficient tensor = f_lambda * identity"""
+    import functools
+    import numqi
+    SE = numqi.group.symext
+    r = tlc.run('extra/MC_SchurWeyl.tla', 'extra/MC_SchurWeyl.cfg', dump=True, timeout=600)
+    ctx.add_model('MC_SchurWeyl', r)
+    rng = np.random.default_rng(ctx.seed + 5)
+    for st in sorted(tlc.parse_dump(r), key=lambda st: (st['d'], st['k'])):
+        d, k, table = st['d'], st['k'], st['table']
+        if d ** k > (100 if quick else 256):
+            continue
+        data = dict(dim=d, kext=k, table=[[list(t[0]), t[1], t[2]] for t in table])
+        ctx.case(('schurweyl', d, k))
+        try:
+            basis = SE.get_sud_symmetric_irrep_basis(d, k)
+            got = [[len(x), x[0].shape[0]] for x in basis]
+            want = [[t[1], t[2]] for t in table]
+            if got != want or any(y.shape != (t[2], d ** k) for x, t in zip(basis, table) for y in x):
+                ctx.violation('X01:get_sud_symmetric_irrep_basis:table', 'number of copies / dimensions %s differ from the Schur-Weyl table %s' % (got, want), data)
+                continue
+            allb = np.concatenate([y for x in basis for y in x], axis=0)
+            if allb.shape[0] != d ** k or core.gt(np.abs(allb @ allb.conj().T - np.eye(d ** k)).max(), 1e-9):
+                ctx.violation('X01:get_sud_symmetric_irrep_basis:orthonormal', 'the blocks together are not an orthonormal basis of (C^d)^k', data)
+            U = numqi.random.rand_haar_unitary(d, seed=int(rng.integers(1 << 30)))
+            Uk = functools.reduce(np.kron, [U] * k)
+            for x, t in zip(basis, table):
+                reps = [y.conj() @ Uk @ y.T for y in x]
+                for y, R in zip(x, reps):
+                    if core.gt(np.abs(Uk @ y.T - y.T @ R).max(), 1e-8):
+                        ctx.violation('X01:get_sud_symmetric_irrep_basis:invariant', 'a copy of W_lambda is not invariant under U^{(x)k}', dict(data, shape=list(t[0])))
+                        break
+                if any(core.gt(np.abs(R - reps[0]).max(), 1e-8) for R in reps[1:]):
+                    ctx.violation('X01:get_sud_symmetric_irrep_basis:equivalent-copies', 'the copies of W_lambda carry different representation matrices (one SDP block per diagram needs identical ones)', dict(data, shape=list(t[0])))
+            coeff, mult = SE.get_symmetric_extension_irrep_coeff(d, k)
+            if d == 2:
+                ok = len(coeff) == 1 and tuple(mult) == (1,) and coeff[0].shape == (k + 1, k + 1, 2, 2) and not core.gt(np.abs(np.einsum('abii->ab', coeff[0]) - np.eye(k + 1)).max(), 1e-9)
+            else:
+                ok = list(mult) == [t[1] for t in table] and all(c.shape == (t[2], t[2], d, d) for c, t in zip(coeff, table)) and \
+                    not any(core.gt(np.abs(np.einsum('abii->ab', c) - t[1] * np.eye(t[2])).max(), 1e-9) for c, t in zip(coeff, table))
+            if not ok:
+                ctx.violation('X01:get_symmetric_extension_irrep_coeff:trace', 'multiplicities / shapes / partial trace of the coefficient tensors differ from the Schur-Weyl table', data)
+            ctx.traces += 1
+        except Exception as ex:
+            ctx.violation('X01:schurweyl:exception', type(ex).__name__ + ': ' + str(ex)[:160], data)
+
+
 def run(ctx):
     quick = ctx.tier == 'quick'
     ctx.rule = ('beyond the listed properties: Weyl-Heisenberg matrices d = 2, 4, 8 (commutation, order, Fourier relation as TLC invariants); symplectic Gram-Schmidt over F2 for every list of '
-                '%d vectors of F2^4 (number of hyperbolic pairs = rank of the Gram matrix / 2, computed by TLC); Pauli exponential on the axis grid; orbits of two-qubit Pauli subsets under the Clifford group; the symmetric / antisymmetric bases of (C^d)^r for d <= 4, r <= 4 and every projection route of numqi.matrix_space built on them' % (4 if quick else 5))
+                '%d vectors of F2^4 (number of hyperbolic pairs = rank of the Gram matrix / 2, computed by TLC); Pauli exponential on the axis grid; orbits of two-qubit Pauli subsets under the Clifford group; the symmetric / antisymmetric bases of (C^d)^r for d <= 4, r <= 4 and every projection route of numqi.matrix_space built on them; the Schur-Weyl blocks of numqi.group.symext against the hook-length / hook-content table' % (4 if quick else 5))
     ctx.assumptions = ['TLC/SANY correct', 'tolerance 1e-9']
     ctx.not_covered = ['everything else outside C01..C20 (optimisers, maximum entropy, unique determination, query algorithms, optimal control)']
     run_qudit(ctx)
@@ -210,6 +260,7 @@ def run(ctx):
     run_pauli_exponential(ctx)
     run_pauli_orbit(ctx, quick)
     run_symbasis(ctx, quick)
+    run_schurweyl(ctx, quick)
     ctx.sample(dict(kind='extra-models', models=[m['model'] for m in ctx.models]))
 
 
